@@ -64,7 +64,7 @@ func genScript(rt *rapid.T) Script {
 	// is still waiting behind a slow notification handler on the other side
 	kinds := []string{"progress", "progress", "roots", "tool", "tool", "ping", "list", "abandoned"}
 	if s.Dir == "s2c" {
-		kinds = []string{"sprogress", "sprogress", "slog", "sping", "sroots", "ssample", "ssample"}
+		kinds = []string{"sprogress", "sprogress", "slog", "sresupd", "sresupd", "sping", "sroots", "ssample", "ssample"}
 	}
 	n := rapid.IntRange(2, 15).Draw(rt, "n")
 	for i := 0; i < n; i++ {
@@ -143,7 +143,7 @@ type toolIn struct {
 
 var methodOf = map[string]string{
 	"progress": "notifications/progress", "roots": "notifications/roots/list_changed", "tool": "tools/call", "ping": "ping", "list": "tools/list", "abandoned": "prompts/list",
-	"sprogress": "notifications/progress", "slog": "notifications/message", "sping": "ping", "sroots": "roots/list", "ssample": "sampling/createMessage",
+	"sprogress": "notifications/progress", "slog": "notifications/message", "sresupd": "notifications/resources/updated", "sping": "ping", "sroots": "roots/list", "ssample": "sampling/createMessage",
 }
 
 func isNotif(kind string) bool {
@@ -183,7 +183,7 @@ func runInBubble(s Script) (res vt.Result) {
 	slow := func(next mcp.MethodHandler) mcp.MethodHandler {
 		return func(ctx context.Context, method string, req mcp.Request) (mcp.Result, error) {
 			switch method {
-			case "tools/call", "ping", "tools/list", "prompts/list", "notifications/progress", "notifications/roots/list_changed", "notifications/message", "roots/list", "sampling/createMessage":
+			case "tools/call", "ping", "tools/list", "prompts/list", "notifications/resources/updated", "notifications/progress", "notifications/roots/list_changed", "notifications/message", "roots/list", "sampling/createMessage":
 				sleepFor(ctx, method, req)
 			}
 			return next(ctx, method, req)
@@ -194,6 +194,11 @@ func runInBubble(s Script) (res vt.Result) {
 		ProgressNotificationHandler: func(context.Context, *mcp.ProgressNotificationServerRequest) {},
 		RootsListChangedHandler:     func(context.Context, *mcp.RootsListChangedRequest) {},
 		HasPrompts:                  true,
+		SubscribeHandler:            func(context.Context, *mcp.SubscribeRequest) error { return nil },
+		UnsubscribeHandler:          func(context.Context, *mcp.UnsubscribeRequest) error { return nil },
+	})
+	server.AddResource(&mcp.Resource{URI: "file:///watched", Name: "watched"}, func(context.Context, *mcp.ReadResourceRequest) (*mcp.ReadResourceResult, error) {
+		return &mcp.ReadResourceResult{Contents: []*mcp.ResourceContents{{URI: "file:///watched", Text: "x"}}}, nil
 	})
 	mcp.AddTool(server, &mcp.Tool{Name: "t"}, func(ctx context.Context, req *mcp.CallToolRequest, in toolIn) (*mcp.CallToolResult, any, error) {
 		return &mcp.CallToolResult{Content: []mcp.Content{&mcp.TextContent{Text: "ok"}}}, nil, nil
@@ -201,6 +206,7 @@ func runInBubble(s Script) (res vt.Result) {
 	client := mcp.NewClient(&mcp.Implementation{Name: "cli", Version: "1"}, &mcp.ClientOptions{
 		ProgressNotificationHandler: func(context.Context, *mcp.ProgressNotificationClientRequest) {},
 		LoggingMessageHandler:       func(context.Context, *mcp.LoggingMessageRequest) {},
+		ResourceUpdatedHandler:      func(context.Context, *mcp.ResourceUpdatedNotificationRequest) {},
 		CreateMessageHandler: func(context.Context, *mcp.CreateMessageRequest) (*mcp.CreateMessageResult, error) {
 			return &mcp.CreateMessageResult{Content: &mcp.TextContent{Text: "x"}, Model: "m", Role: "assistant"}, nil
 		},
@@ -257,6 +263,10 @@ func runInBubble(s Script) (res vt.Result) {
 			res.Failf("harness: SetLoggingLevel: %v", err)
 			return
 		}
+		if err := cs.Subscribe(ctx, &mcp.SubscribeParams{URI: "file:///watched"}); err != nil {
+			res.Failf("harness: Subscribe: %v", err)
+			return
+		}
 		synctest.Wait()
 	}
 	// Forget handshake traffic.
@@ -302,6 +312,8 @@ func runInBubble(s Script) (res vt.Result) {
 			nerr = ss.NotifyProgress(ctx, &mcp.ProgressNotificationParams{ProgressToken: fmt.Sprint(i), Progress: float64(i)})
 		case "slog":
 			nerr = ss.Log(ctx, &mcp.LoggingMessageParams{Level: "error", Data: i})
+		case "sresupd":
+			nerr = server.ResourceUpdated(ctx, &mcp.ResourceUpdatedNotificationParams{URI: "file:///watched"})
 		default:
 			callWG.Add(1)
 			go func(kind string, i int) {
